@@ -43,7 +43,13 @@ pub struct Cfg {
     /// weights and the capacity are multiplied by this factor on their way into the cache and divided
     /// by it on their way out: the trace stays in small units while the code works near u32::MAX
     pub wscale: u64,
+    /// the weigher looks its key up in the cache it belongs to (concurrent cache only)
+    pub reent: bool,
 }
+
+/// the handle through which a re-entrant weigher reaches its own cache (emptied before the cache
+/// is dropped: the closure would otherwise keep the cache alive)
+pub type ReentCell = Arc<Mutex<Option<mini_moka::sync::Cache<K, Val, HBuild>>>>;
 
 impl Cfg {
     pub fn from_json(v: &Value) -> Cfg {
@@ -68,6 +74,7 @@ impl Cfg {
             via_new: gb("via_new", false),
             seed: gi("seed", 0) as u64,
             wscale: if gb("weigher", false) { gi("wscale", 1).max(1) as u64 } else { 1 },
+            reent: gb("reent", false),
         }
     }
     pub fn to_json(&self) -> Value {
@@ -98,6 +105,15 @@ pub struct World {
     pub mx: Arc<Mutex<Vec<Value>>>,
     last_resets: std::cell::Cell<u32>,
     info_ids: Arc<Mutex<HashMap<usize, i64>>>,
+    reent_cell: Option<ReentCell>,
+}
+
+impl Drop for World {
+    fn drop(&mut self) {
+        if let Some(c) = &self.reent_cell {
+            *c.lock().unwrap() = None;
+        }
+    }
 }
 
 fn ticks(base: Instant, t: Option<Instant>) -> i64 {
@@ -112,6 +128,10 @@ fn ticks(base: Instant, t: Option<Instant>) -> i64 {
 }
 
 pub fn build_cache(cfg: &Cfg) -> AnyCache {
+    build_cache_reent(cfg).0
+}
+
+pub fn build_cache_reent(cfg: &Cfg) -> (AnyCache, Option<ReentCell>) {
     let hb = HBuild {
         mode: cfg.hash_mode(),
     };
@@ -132,8 +152,9 @@ pub fn build_cache(cfg: &Cfg) -> AnyCache {
         if cfg.tti >= 0 {
             b = b.time_to_idle(Duration::from_secs(cfg.tti as u64));
         }
-        AnyCache::U(Box::new(b.build_with_hasher(hb)))
+        (AnyCache::U(Box::new(b.build_with_hasher(hb))), None)
     } else {
+        let cell: ReentCell = Arc::new(Mutex::new(None));
         let mut b = mini_moka::sync::Cache::builder();
         if cfg.cap >= 0 {
             b = b.max_capacity(cfg.cap as u64 * cfg.wscale);
@@ -142,7 +163,18 @@ pub fn build_cache(cfg: &Cfg) -> AnyCache {
             b = b.initial_capacity(cfg.init_cap as usize);
         }
         if cfg.weigher {
-            b = b.weigher(|_k: &K, v: &Val| v.w);
+            if cfg.reent {
+                let cell2 = Arc::clone(&cell);
+                b = b.weigher(move |k: &K, v: &Val| {
+                    let c = cell2.lock().unwrap().clone();
+                    if let Some(c) = c {
+                        let _ = c.contains_key(k);
+                    }
+                    v.w
+                });
+            } else {
+                b = b.weigher(|_k: &K, v: &Val| v.w);
+            }
         }
         if cfg.ttl >= 0 {
             b = b.time_to_live(Duration::from_secs(cfg.ttl as u64));
@@ -150,7 +182,13 @@ pub fn build_cache(cfg: &Cfg) -> AnyCache {
         if cfg.tti >= 0 {
             b = b.time_to_idle(Duration::from_secs(cfg.tti as u64));
         }
-        AnyCache::S(b.build_with_hasher(hb))
+        let c = b.build_with_hasher(hb);
+        if cfg.reent && cfg.weigher {
+            *cell.lock().unwrap() = Some(c.clone());
+            (AnyCache::S(c), Some(cell))
+        } else {
+            (AnyCache::S(c), None)
+        }
     }
 }
 
@@ -165,7 +203,7 @@ impl World {
         let base = clock.now();
         let mx: Arc<Mutex<Vec<Value>>> = Arc::new(Mutex::new(Vec::new()));
         let info_ids: Arc<Mutex<HashMap<usize, i64>>> = Arc::new(Mutex::new(HashMap::new()));
-        let mut cache = build_cache(&cfg);
+        let (mut cache, reent_cell) = build_cache_reent(&cfg);
         match &mut cache {
             AnyCache::U(c) => c.verif_set_clock(&clock),
             AnyCache::S(c) => {
@@ -195,6 +233,7 @@ impl World {
             mx,
             last_resets: std::cell::Cell::new(0),
             info_ids,
+            reent_cell,
         }
     }
 
@@ -208,6 +247,7 @@ impl World {
             mx: Arc::new(Mutex::new(Vec::new())),
             last_resets: std::cell::Cell::new(0),
             info_ids: Arc::new(Mutex::new(HashMap::new())),
+            reent_cell: None,
         }
     }
 
@@ -534,6 +574,9 @@ impl World {
                 AnyCache::S(c) => c.sync(),
             },
             "Drop" => {
+                if let Some(c) = &self.reent_cell {
+                    *c.lock().unwrap() = None;
+                }
                 self.cache = None;
             }
             other => panic!("harness: unknown op {}", other),
